@@ -30,7 +30,7 @@ int main() {
 		guarded([&]() {
 			Toks t(line); t.expect("ops"); char mode = t.word()[0];
 			NFA na = readW(t), nb = readW(t);
-			FA a = mkNfa(na, mode), b = mkNfa(nb, mode);
+			FA a, b; mkPair(na, nb, mode, a, b);      // operands over one edge list: two copies of one automaton (shared table)
 			std::ostringstream os;
 			{
 				VATA::AutBase::StateToStateMap ma, mb;
